@@ -97,19 +97,19 @@ package server
 //@   loop 4 invariant len(images) == c19nimg(currMsgIdx + rangeindex + 1) - c19nimg(currMsgIdx)
 //@   loop 5 invariant forall k int :: 0 <= k && k < len(images) ==> images[k].ID == k
 //@   loop 5 invariant len(images) == c19nimg(currMsgIdx + cnt) - c19nimg(currMsgIdx) + rangeindex + 1
-//@   assert-at call append #3 : imgData.ID == len(images) && 0 <= cnt && currMsgIdx + cnt <= len(msgs) - 1
+//@   assert-at call append #4 : imgData.ID == len(images) && 0 <= cnt && currMsgIdx + cnt <= len(msgs) - 1
 //
-//   THE FINAL RENDERING (append #4 builds the message list that is passed to Execute #2):
+//   THE FINAL RENDERING (append #5 builds the message list that is passed to Execute #2):
 //   the latest message is retained;
 //@   assert-at call Execute #2 : 0 <= currMsgIdx && currMsgIdx <= len(msgs) - 1
 //   every element of system is a system message that precedes the retained messages, and every
 //   system message that precedes the retained messages occurs in system (the property's own words);
-//@   assert-at call append #4 : forall p int :: 0 <= p && p < len(system) ==> exists q int :: 0 <= q && q < currMsgIdx && msgs[q].Role == "system" && system[p].Role == msgs[q].Role && system[p].Content == msgs[q].Content
-//@   assert-at call append #4 : forall q int :: 0 <= q && q < currMsgIdx && msgs[q].Role == "system" ==> exists p int :: 0 <= p && p < len(system) && system[p].Role == msgs[q].Role && system[p].Content == msgs[q].Content
+//@   assert-at call append #5 : forall p int :: 0 <= p && p < len(system) ==> exists q int :: 0 <= q && q < currMsgIdx && msgs[q].Role == "system" && system[p].Role == msgs[q].Role && system[p].Content == msgs[q].Content
+//@   assert-at call append #5 : forall q int :: 0 <= q && q < currMsgIdx && msgs[q].Role == "system" ==> exists p int :: 0 <= p && p < len(system) && system[p].Role == msgs[q].Role && system[p].Content == msgs[q].Content
 //   the retained suffix is the longest that fits: the next older candidate does not fit (or there is
 //   none) and every candidate from currMsgIdx on fits (the latest message alone is always kept);
-//@   assert-at call append #4 : currMsgIdx == 0 || c19tok(currMsgIdx - 1) + ite(m.ProjectorPaths != nil, imageNumTokens * (c19nimg(len(msgs)) - c19nimg(currMsgIdx - 1)), 0) > opts.NumCtx
-//@   assert-at call append #4 : forall k int :: currMsgIdx <= k && k < len(msgs) - 1 ==> c19tok(k) + ite(m.ProjectorPaths != nil, imageNumTokens * (c19nimg(len(msgs)) - c19nimg(k)), 0) <= opts.NumCtx
+//@   assert-at call append #5 : currMsgIdx == 0 || c19tok(currMsgIdx - 1) + ite(m.ProjectorPaths != nil, imageNumTokens * (c19nimg(len(msgs)) - c19nimg(currMsgIdx - 1)), 0) > opts.NumCtx
+//@   assert-at call append #5 : forall k int :: currMsgIdx <= k && k < len(msgs) - 1 ==> c19tok(k) + ite(m.ProjectorPaths != nil, imageNumTokens * (c19nimg(len(msgs)) - c19nimg(k)), 0) <= opts.NumCtx
 //   the returned images are exactly those of the retained messages (none of a dropped message).
-//@   assert-at call append #4 : len(images) == c19nimg(len(msgs)) - c19nimg(currMsgIdx)
+//@   assert-at call append #5 : len(images) == c19nimg(len(msgs)) - c19nimg(currMsgIdx)
 // ---- end C19 ----
